@@ -27,7 +27,8 @@ KeyCfgs == {"none", "set"}
 Presented == {"absent", "wrong", "right"}
 \* default: http\.   anchored: http\.echo$   empty: no pattern configured (everything is exposed)
 Patterns == {"default", "anchored", "empty"}
-ParamShapes == {"none", "one", "two", "repeated", "encoded"}
+\* blank: one of the parameters has the empty text as its value (it is a parameter all the same)
+ParamShapes == {"none", "one", "two", "repeated", "encoded", "blank"}
 
 Requests == [meth : HttpMethods, path : PathShapes, name : NameClasses, member : MemberClasses, keycfg : KeyCfgs,
              hdr : Presented, par : Presented, pattern : Patterns, oneway : BOOLEAN, params : ParamShapes]
